@@ -151,6 +151,33 @@ pub fn replay(args: &[String]) -> i32 {
             bad += 1;
             out.line(&json!({"kind": "mismatch", "case": case, "observed": observed}));
         }
+        // a plain-iterator bulk insertion that does not fit is refused also when the iterator never ends
+        // (and says so in its size hint): Overflow, contents untouched, and the call returns
+        if case["op"]["name"] == "try_extend" && !arr(&case["op"]["s"]).is_empty()
+            && vals.len() + arr(&case["op"]["s"]).len() > max
+        {
+            let first = u(&case["op"]["s"][0]) as u8;
+            for kind in ["repeat", "counting", "cycle"] {
+                n += 1;
+                let observed = guarded(|| {
+                    let mut st = build(&vals, max);
+                    let r = match kind {
+                        "repeat" => st.try_extend(&mut std::iter::repeat(first)),
+                        "counting" => st.try_extend(&mut (0u64..).map(|k| (k % 251) as u8)),
+                        _ => st.try_extend(&mut [first, 1, 2].into_iter().cycle()),
+                    };
+                    json!({"ret": match r { Ok(()) => json!({"k": "ok"}), Err(e) => err(&e) }, "vals": contents(&st)})
+                })
+                .unwrap_or_else(|m| json!({"panic": m}));
+                if observed["ret"]["k"] != "overflow" || observed["vals"] != case["vals"] {
+                    bad += 1;
+                    let mut c2 = case.clone();
+                    c2["huge"] = json!({"endless_iterator": kind});
+                    out.line(&json!({"kind": "mismatch", "case": c2, "observed": observed}));
+                    break;
+                }
+            }
+        }
         // discarding more than there is reports the counts and removes nothing, however many are asked for
         if case["op"]["name"] == "discard" && u(&case["op"]["n"]) as usize > vals.len() {
             for far in [usize::MAX, usize::MAX - 1, 1usize << 63, 1 << 32] {
